@@ -57,11 +57,36 @@ func vfsLeaks(val any, repos []*vfsRepo, allowed func(*vfsRepo) bool) []string {
 	var u32s []uint32
 	vfsWalk(reflect.ValueOf(val), &strs, &u32s, 0)
 	leaks := map[string]bool{}
+	own := map[string]bool{}
+	for _, x := range repos {
+		if allowed(x) && x.shared {
+			own[x.name], own[x.url], own[x.frag] = true, true, true
+		}
+	}
 	for _, rp := range repos {
 		if allowed(rp) {
 			continue
 		}
+		if rp.shared {
+			// a shared name is a leak only when no repository the caller may see carries it
+			own := false
+			for _, x := range repos {
+				if allowed(x) && x.name == rp.name {
+					own = true
+				}
+			}
+			if !own {
+				for _, s := range strs {
+					if s == rp.name {
+						leaks["name"] = true
+					}
+				}
+			}
+		}
 		for _, s := range strs {
+			if own[s] {
+				continue // name / template shared with a repository the caller may see
+			}
 			if strings.Contains(s, rp.marker) {
 				switch {
 				case s == rp.name:
@@ -155,7 +180,7 @@ func vfsC23Run(t *testing.T, r *vfRand, n int, strict bool) {
 	for i := 0; i < n; i++ {
 		if i%perWorld == 0 {
 			nw++
-			w = vfsGenWorld(t, r, vfsGenOpts{tenants: true, tombstones: true, subrepos: true, split: true}, fmt.Sprint("c23s", nw))
+			w = vfsGenWorld(t, r, vfsGenOpts{tenants: true, tombstones: true, subrepos: true, split: true, dupnames: true}, fmt.Sprint("c23s", nw))
 			if srch != nil {
 				srch.Close()
 			}
@@ -214,7 +239,7 @@ func vfsC23Run(t *testing.T, r *vfRand, n int, strict bool) {
 		for _, sh := range w.shards {
 			var ps []any
 			for _, p := range sh.parts {
-				ps = append(ps, map[string]any{"name": p.repo.name, "tenant": p.repo.tenant, "tombstone": p.repo.tomb, "docs": len(p.docs)})
+				ps = append(ps, map[string]any{"name": p.repo.name, "marker": p.repo.marker, "tenant": p.repo.tenant, "tombstone": p.repo.tomb, "docs": len(p.docs)})
 			}
 			sdesc = append(sdesc, map[string]any{"shard": sh.key, "repos": ps})
 		}
